@@ -546,7 +546,25 @@ pub fn main(args: &Args) -> i32 {
         seed,
         level: p.level.to_string(),
         rule: p.rule.clone(),
-        evaluations: m.c(p.eval_counter),
+        evaluations: {
+            // every kind of case whose hash can enter distinct_nontrivial is counted
+            let mut e = m.c(p.eval_counter);
+            if p.eval_counter != "runs" {
+                e += m.c("runs");
+            } else {
+                e += m.c("histories");
+            }
+            if prop == "C16" {
+                e += m.c("c16_static_cases") + m.c("c16_reopen_capacity_cases");
+            }
+            if prop == "C08" {
+                e += m.c("c06_crash_points");
+            }
+            if prop == "C18" {
+                e += m.c("c18_readonly_truncate_checks");
+            }
+            e
+        },
         extra,
         assumptions: p.assumptions.clone(),
         min_eval: p.min_eval,
